@@ -326,6 +326,7 @@ func (w *World) Apply(op Op) *Violation {
 	if v != nil && v.Oracle == "panic" {
 		w.Dead = true
 	}
+	scramblePools()
 	// a held ImmutableTree whose version has been deleted (pruned or rolled back) is given up for good: reading
 	// a deleted version is outside the contract, also when the version number is used again later
 	for ver := range w.held {
